@@ -42,7 +42,7 @@ def alarm_times(start, end_anchor, alarm):
         first = trig
     out = [first]
     rep, dur = alarm.get("repeat"), alarm.get("duration")
-    if rep and dur:
+    if rep and dur is not None:
         for k in range(1, rep + 1):
             out.append(nadd(first, dur * k))
     return out
